@@ -38,6 +38,7 @@ var kinds = map[string][]string{
 	"BF": {"exec hpid pidfile 0 30 &", "waitfile pidfile", "recordpid pidfile", "bad"},
 	"BW": {"exec hexit 3 &", "exec hpid pidfile 0 30 &", "waitfile pidfile", "recordpid pidfile", "wait"},
 	"BS": {"exec hpid pidfile 0 30 &", "waitfile pidfile", "recordpid pidfile", "skip"},
+	"BD": {"exec hpid pidfile 0 30 &srv&", "waitfile pidfile", "recordpid pidfile", "watchpid pidfile2", "exec hpid pidfile2 0 30 &srv&", "snapshot"},
 	"BN": {"exec hexit 0 &first&", "exec hpid pidfile 0 30 &", "exec hpid pidfile2 0 30 &", "waitfile pidfile", "recordpid pidfile", "waitfile pidfile2", "recordpid pidfile2", "wait first", "snapshot"},
 	"BM": {"exec hpid pidfile 0 30 &a&", "exec hpid pidfile2 0 30 &", "exec hexit 0 &b&", "exec hpid pidfile3 0 30 &", "waitfile pidfile", "recordpid pidfile", "waitfile pidfile2", "recordpid pidfile2", "waitfile pidfile3", "recordpid pidfile3", "wait b"},
 	"R":  {"mkdir ro/sub", "cp f ro/sub/f", "chmod 555 ro/sub", "chmod 555 ro", "snapshot"},
@@ -173,6 +174,23 @@ func (in *instance) cmds() map[string]func(ts *testscript.TestScript, neg bool, 
 				time.Sleep(time.Millisecond)
 			}
 			ts.Fatalf("waitfile: %s never appeared", args[0])
+		},
+		// watchpid FILE: at the end of the run (before the work directory goes
+		// away) note the process id a helper may have written to FILE after the
+		// script line that started it was already declared failed
+		"watchpid": func(ts *testscript.TestScript, neg bool, args []string) {
+			o := get(ts)
+			path := ts.MkAbs(args[0])
+			ts.Defer(func() {
+				for deadline := time.Now().Add(400 * time.Millisecond); time.Now().Before(deadline); time.Sleep(2 * time.Millisecond) {
+					if data, err := os.ReadFile(path); err == nil {
+						if pid, _ := strconv.Atoi(strings.TrimSpace(string(data))); pid > 0 {
+							o.Pids = append(o.Pids, pid)
+							return
+						}
+					}
+				}
+			})
 		},
 		"recordpid": func(ts *testscript.TestScript, neg bool, args []string) {
 			o := get(ts)
@@ -501,6 +519,11 @@ func scenarios(th bool) []scenario {
 	// single scripts: every exit path on its own (cleanup with one script)
 	for k := range kinds {
 		if k == "X" || k == "Y" {
+			continue
+		}
+		if k == "BD" {
+			// its deferred observer waits 0.4 s for a file that must not appear: one schedule
+			scs = append(scs, scenario{Scripts: []string{k}, Bound: 0})
 			continue
 		}
 		scs = append(scs, scenario{Scripts: []string{k}, Bound: -1})
